@@ -14,6 +14,7 @@ use std::sync::atomic::{AtomicU64, Ordering};
 
 const V50: AutosarVersion = AutosarVersion::Autosar_00050;
 const V49: AutosarVersion = AutosarVersion::Autosar_00049;
+const V51: AutosarVersion = AutosarVersion::Autosar_00051;
 
 fn sn(s: &str) -> Node {
     Node::new("SHORT-NAME").text(Val::Str(s.into()))
@@ -33,7 +34,8 @@ fn tparam(defref: &str, value: &str) -> Node {
         .child(Node::new("VALUE").text(Val::Str(value.into())))
 }
 
-fn masters() -> Vec<(&'static str, Node)> {
+/// (name, master model, version of the newer files, version of the older files)
+fn masters() -> Vec<(&'static str, Node, AutosarVersion, AutosarVersion)> {
     let m1 = Node::new("AUTOSAR").child(
         Node::new("AR-PACKAGES")
             .child(
@@ -76,7 +78,12 @@ fn masters() -> Vec<(&'static str, Node)> {
     let m7 = Node::new("AUTOSAR").child(Node::new("AR-PACKAGES").child(named("AR-PACKAGE", "k").child(
         Node::new("ELEMENTS").child(named("SYSTEM", "x")).child(named("SYSTEM", "w")).child(named("ECU-INSTANCE", "y")).child(named("ECU-INSTANCE", "z")),
     )));
-    vec![("two-kinds-every-sibling-order", m7), ("version-specific-element", m6), ("packages-and-elements", m1), ("bsw-values-by-definition-ref", m2), ("flat-bag", m3), ("tiny-bag", m4), ("tiny-bsw", m5)]
+    // a parent whose content is a sequence fixed by the specification, split between files of two versions; MEMORY-USAGES exists from
+    // 00051 on only and stands before SECTION-NAME-PREFIXS and STACK-USAGES; the master is in the order of the specification, which the parser does not enforce (found by a sweep over the specification: the only such parent for 00051 / 00050)
+    let m8 = Node::new("AUTOSAR").child(Node::new("AR-PACKAGES").child(named("AR-PACKAGE", "r").child(Node::new("ELEMENTS").child(
+        named("SWC-IMPLEMENTATION", "i").child(named("RESOURCE-CONSUMPTION", "rc").child(Node::new("MEMORY-USAGES")).child(Node::new("SECTION-NAME-PREFIXS")).child(Node::new("STACK-USAGES"))),
+    ))));
+    vec![("two-kinds-every-sibling-order", m7, V50, V49), ("version-specific-element", m6, V50, V49), ("sequence-parent-split-between-versions", m8, V51, V50), ("packages-and-elements", m1, V50, V49), ("bsw-values-by-definition-ref", m2, V50, V49), ("flat-bag", m3, V50, V49), ("tiny-bag", m4, V50, V49), ("tiny-bsw", m5, V50, V49)]
 }
 
 /// identity of a node among its siblings: kind + SHORT-NAME or DEFINITION-REF text
@@ -159,9 +166,36 @@ fn restrict(n: &Node, key: &str, file: usize, assign: &BTreeMap<String, BTreeSet
     Some(out)
 }
 
+/// canonical text of a tree: sibling order is dropped, except below parents whose content is a sequence fixed by the specification,
+/// where the order of the groups of equally named children is kept (there the merged order is not free: the master's order is the only valid one)
 fn canonical_unordered(n: &Node) -> String {
-    let mut kids: Vec<String> = n.children().map(canonical_unordered).collect();
-    kids.sort();
+    canonical_typed(n, Some(ElementType::ROOT))
+}
+fn canonical_typed(n: &Node, t: Option<ElementType>) -> String {
+    let mut named_kids: Vec<(String, String)> = n
+        .children()
+        .map(|c| {
+            let ct = t.and_then(|t| ElementName::from_str(&c.name).ok().and_then(|nm| t.find_sub_element(nm, u32::MAX))).map(|x| x.0);
+            (c.name.clone(), canonical_typed(c, ct))
+        })
+        .collect();
+    let mut runs: Vec<&str> = vec![];
+    for (nm, _) in &named_kids {
+        if runs.last() != Some(&nm.as_str()) {
+            runs.push(nm);
+        }
+    }
+    let single_runs = runs.iter().collect::<BTreeSet<_>>().len() == runs.len();
+    let mut kids: Vec<String> = if t.is_some_and(|t| t.content_mode() == ContentMode::Sequence && !t.is_ordered()) && single_runs {
+        let run_of: BTreeMap<String, usize> = runs.iter().enumerate().map(|(i, r)| (r.to_string(), i)).collect();
+        named_kids.sort_by(|a, b| (run_of[&a.0], &a.1).cmp(&(run_of[&b.0], &b.1)));
+        named_kids.into_iter().map(|k| k.1).collect()
+    } else {
+        let mut k: Vec<String> = named_kids.into_iter().map(|k| k.1).collect();
+        k.sort();
+        k
+    };
+    let _ = &mut kids;
     let texts: Vec<String> = n.items.iter().filter_map(|i| if let Item::Text(v) = i { Some(format!("{v:?}")) } else { None }).collect();
     format!("<{} {:?} {:?}>{}", n.name, n.attrs, texts, kids.join(""))
 }
@@ -401,8 +435,9 @@ pub fn run(tier: Tier) -> i32 {
     let ctx = Ctx::new("C09", tier);
     let cases = AtomicU64::new(0);
     let mut distributions = 0u64;
-    for (mname, master) in masters().iter() {
-        let sl = slots(master, V50);
+    for (mname, master, vnew, vold) in masters().iter() {
+        let (vnew, vold) = (*vnew, *vold);
+        let sl = slots(master, vnew);
         ctx.count(&format!("slots_{mname}"), sl.len() as u64);
         for nfiles in tier.pick(vec![2usize, 3], vec![2usize, 3, 4]) {
             let cap: usize = tier.pick(20_000, 400_000);
@@ -462,7 +497,7 @@ pub fn run(tier: Tier) -> i32 {
                 }
                 perms(nfiles)
             };
-            let version_sets: Vec<Vec<AutosarVersion>> = if nfiles == 2 { vec![vec![V50, V50], vec![V50, V49], vec![V49, V50]] } else { vec![(0..nfiles).map(|i| if i % 2 == 0 { V50 } else { V49 }).collect()] };
+            let version_sets: Vec<Vec<AutosarVersion>> = if nfiles == 2 { vec![vec![vnew, vnew], vec![vnew, vold], vec![vold, vnew]] } else { vec![(0..nfiles).map(|i| if i % 2 == 0 { vnew } else { vold }).collect()] };
             let reverse_sets: Vec<Vec<bool>> = if nfiles == 2 { vec![vec![false, false], vec![false, true], vec![true, true]] } else { vec![(0..nfiles).map(|i| i % 2 == 1).collect(), vec![false; nfiles]] };
             if *mname == "two-kinds-every-sibling-order" {
                 // every order of the children in each of two files (24 x 24), same version, both load orders
